@@ -34,8 +34,10 @@ type Directives struct {
 	NsTTL             int64  // nsttl<N>: TTL of the authority and additional records (-1 = same rule as the answers)
 	Pad               int    // pad<N>: one extra TXT answer with exactly N octets of text (N <= 255): response sizes in 1-byte steps
 	AA, AD            bool   // aa / ad: the reply has the AA / AD flag set (an authoritative / validating upstream)
-	Fin               bool   // fin: stream transports close the connection right after the reply has been written
-	Deep              int    // deep<N>: a CNAME chain of nested names followed by N A records owned by a long label under the
+	Fat               bool   // fat (with uexact<N>): the padding goes into the first answer record itself - one TXT record with up to 64 KiB
+	// of text - instead of hundreds of small records, so that name compression saves next to nothing
+	Fin  bool // fin: stream transports close the connection right after the reply has been written
+	Deep int  // deep<N>: a CNAME chain of nested names followed by N A records owned by a long label under the
 	// deepest name: compresses to ~16 bytes per record with full name compression, but to ~80 bytes per
 	// record for an encoder that bounds the depth of compression pointer chains
 }
@@ -54,6 +56,9 @@ func ParseDirectives(firstLabel string) Directives {
 		switch p {
 		case "ok", "nx", "empty", "tc", "tcs", "silent", "garbage", "close", "rst", "half":
 			d.Kind = p
+			continue
+		case "fat":
+			d.Fat = true
 			continue
 		case "servfail":
 			d.Kind, d.RCode = "rc", 2
@@ -307,6 +312,28 @@ func BuildReply(name string, qtype, qclass uint16, tag string, serial uint32, d 
 			m.Answer = append(m.Answer, &dns.TXT{Hdr: dns.RR_Header{Name: name, Rrtype: dns.TypeTXT, Class: class, Ttl: ttlOf(i)}, Txt: []string{txt}})
 			i++
 		}
+	}
+	if d.Exact >= 600 && d.Fat && d.ExactUncompressed {
+		m.Compress = false
+		rem := d.Exact - m.Len()
+		i := 6000
+		chunk := func(n int) string {
+			s := sub(key, serial, i)
+			i++
+			return strings.Repeat(hex.EncodeToString(s), 4)[:n]
+		}
+		for rem > 256 {
+			metaRR.Txt = append(metaRR.Txt, chunk(255))
+			rem -= 256
+		}
+		if rem == 1 && len(metaRR.Txt) > 1 {
+			metaRR.Txt[len(metaRR.Txt)-1] = metaRR.Txt[len(metaRR.Txt)-1][:254]
+			rem++
+		}
+		if rem >= 2 {
+			metaRR.Txt = append(metaRR.Txt, chunk(rem-1))
+		}
+		return m
 	}
 	if d.Exact >= 600 {
 		wireLen := func() int {
